@@ -74,6 +74,20 @@ pub fn block_on_paused<F: std::future::Future>(f: F) -> F::Output {
     rt.block_on(f)
 }
 
+/// like [block_on_paused], but every poll of `f` that answers Pending counts as an unproductive attempt of the calling harness thread (`sched::spin`) and moves the
+/// virtual clock on by a millisecond: a request that keeps waiting while nobody else can do anything for it ends in the conductor's stall verdict (no clock involved)
+pub fn block_on_paused_counting_attempts<F: std::future::Future>(f: F) -> F::Output {
+    let rt = tokio::runtime::Builder::new_current_thread().enable_time().start_paused(true).build().expect("tokio runtime");
+    rt.block_on(async move {
+        let mut f = std::pin::pin!(f);
+        loop {
+            if let std::task::Poll::Ready(r) = futures::poll!(f.as_mut()) { break r }
+            sched::spin();
+            tokio::time::advance(Duration::from_millis(1)).await;
+        }
+    })
+}
+
 pub fn one_run(cfg: &Cfg, rc: &RunCfg, acc: &mut Acc) -> (Option<J>, u64, bool) {
     let ch = chan::make(cfg.kind, cfg.n, cfg.m, false).expect("instantiation");
     let early: Vec<_> = (0..cfg.predropped).map(|_| ch.create_stream()).collect();
